@@ -248,6 +248,7 @@ type recManager struct {
 
 func (m *recManager) rec(c cmCall) {
 	c.Step = m.s.Step
+	sort.Slice(c.IDs, func(i, j int) bool { return c.IDs[i] < c.IDs[j] }) // set-valued argument (map key order)
 	m.mu.Lock()
 	m.calls = append(m.calls, c)
 	m.mu.Unlock()
